@@ -33,6 +33,8 @@ func main() {
 		runC10(r, *n, w)
 	case "C18":
 		runC18(r, *n, w)
+	case "C18sys":
+		runC18sys(r, *n, *out+".summary.json", w)
 	default:
 		fmt.Fprintln(os.Stderr, "unknown -prop", *prop)
 		os.Exit(2)
